@@ -169,6 +169,11 @@ def run_case(ns, mon, c):
             res, nel = both([x], lambda a: nn.CrossEntropyLoss(reduction=red)(a, t), lambda a: nn.NLLLoss(reduction=red)(sg.log_softmax(a, 1), t))
         elif ident == "bcewl":
             x = rng.uniform(-4, 4, tuple(c["shape"])); t = T(rng.uniform(0, 1, tuple(c["shape"])))
+            if c["seed"] % 3 == 0:
+                # hard labels held in a small integer / bool array (a mask): both sides see the same tensor
+                idt_ = ["uint8", "int8", "bool", "int16", "int64", "uint16"][(c["seed"] // 3) % 6]
+                t = T((rng.uniform(0, 1, tuple(c["shape"])) > 0.5).astype(idt_))
+                args_extra = {"target_dtype": idt_}
             red = c["reduction"]
             res, nel = both([x], lambda a: nn.BCEWithLogitsLoss(reduction=red)(a, t), lambda a: nn.BCELoss(reduction=red)(sg.sigmoid(a), t), 1e-6, 1e-6)
         elif ident == "logsoftmax":
